@@ -14,7 +14,7 @@ MAP_ENTRY = "tuple[str,%s,str,str,%s]" % (CLS_OR_FN, MEMBER)
 SCHEMA = {
     # ---------------------------------------------------------------- parser nodes
     'Typename': {
-        'name': 'str|ref:Typename',      # instantiate_type stores a Typename into .name
+        'name': 'nestr|ref:Typename',    # instantiate_type stores a Typename into .name
         'namespaces': 'list[str]',
         'instantiations': 'list[ref:Typename]',
     },
@@ -29,7 +29,7 @@ SCHEMA = {
         'is_const': 'str', 'is_shared_ptr': 'str', 'is_ptr': 'str', 'is_ref': 'str',
     },
     'Argument': {
-        'ctype': TYPE_ANY, 'name': 'str', 'default': 'none|str', 'parent': 'any',
+        'ctype': TYPE_ANY, 'name': 'nestr', 'default': 'none|str', 'parent': 'any',
     },
     'ArgumentList': {
         'args_list': 'list[ref:Argument]', 'parent': 'any', 'backup': 'ref:ArgumentList',
@@ -41,34 +41,34 @@ SCHEMA = {
         'typenames': 'list[str]', 'instantiations': 'list[list[ref:Typename]]',
     },
     'Method': {
-        'template': 'none|str|ref:Template', 'name': 'str', 'return_type': 'ref:ReturnType',
+        'template': 'none|str|ref:Template', 'name': 'nestr', 'return_type': 'ref:ReturnType',
         'args': 'ref:ArgumentList', 'is_const': 'str', 'parent': 'str|ref:Class',
     },
     'StaticMethod': {
-        'template': 'none|str|ref:Template', 'name': 'str', 'return_type': 'ref:ReturnType',
+        'template': 'none|str|ref:Template', 'name': 'nestr', 'return_type': 'ref:ReturnType',
         'args': 'ref:ArgumentList', 'parent': 'str|ref:Class',
     },
     'Constructor': {
-        'template': 'none|str|ref:Template', 'name': 'str', 'args': 'ref:ArgumentList', 'parent': 'str|ref:Class',
+        'template': 'none|str|ref:Template', 'name': 'nestr', 'args': 'ref:ArgumentList', 'parent': 'str|ref:Class',
     },
     'Operator': {
-        'name': 'str', 'operator': 'str', 'return_type': 'ref:ReturnType', 'args': 'ref:ArgumentList',
+        'name': 'nestr', 'operator': 'str', 'return_type': 'ref:ReturnType', 'args': 'ref:ArgumentList',
         'is_const': 'str', 'is_unary': 'bool', 'parent': 'str|ref:Class',
     },
-    'DunderMethod': {'name': 'str', 'args': 'ref:ArgumentList', 'parent': 'str|ref:Class'},
-    'Variable': {'ctype': TYPE_ANY, 'name': 'str', 'default': 'none|str', 'parent': 'str|ref:Class|ref:Namespace'},
-    'Enumerator': {'name': 'str'},
-    'Enum': {'name': 'str', 'enumerators': 'list[ref:Enumerator]', 'parent': 'str|ref:Class|ref:Namespace'},
+    'DunderMethod': {'name': 'nestr', 'args': 'ref:ArgumentList', 'parent': 'str|ref:Class'},
+    'Variable': {'ctype': TYPE_ANY, 'name': 'nestr', 'default': 'none|str', 'parent': 'str|ref:Class|ref:Namespace'},
+    'Enumerator': {'name': 'nestr'},
+    'Enum': {'name': 'nestr', 'enumerators': 'list[ref:Enumerator]', 'parent': 'str|ref:Class|ref:Namespace'},
     'Include': {'header': 'str', 'parent': 'str|ref:Namespace'},
-    'ForwardDeclaration': {'name': 'str', 'typename': 'ref:Typename', 'parent_type': 'str|ref:Typename',
+    'ForwardDeclaration': {'name': 'nestr', 'typename': 'ref:Typename', 'parent_type': 'str|ref:Typename',
                            'is_virtual': 'str', 'parent': 'str|ref:Namespace'},
     'TypedefTemplateInstantiation': {'typename': 'ref:Typename', 'new_name': 'str', 'parent': 'str|ref:Namespace'},
     'GlobalFunction': {
-        'name': 'str', 'return_type': 'ref:ReturnType', 'args': 'ref:ArgumentList',
+        'name': 'nestr', 'return_type': 'ref:ReturnType', 'args': 'ref:ArgumentList',
         'template': 'none|str|ref:Template', 'parent': 'str|ref:Namespace',
     },
     'Class': {
-        'template': 'none|str|ref:Template', 'is_virtual': 'str', 'name': 'str',
+        'template': 'none|str|ref:Template', 'is_virtual': 'str', 'name': 'nestr',
         'parent_class': 'str|ref:Typename|ref:TemplatedType',
         'ctors': 'list[ref:Constructor]', 'methods': 'list[ref:Method]',
         'static_methods': 'list[ref:StaticMethod]', 'dunder_methods': 'list[ref:DunderMethod]',
